@@ -156,8 +156,39 @@ def _run_ch_once(mod, fn, timeout, per_path_timeout):
     return verdict, cex, detail, int(stats.get("num_paths", 0)), cpu
 
 
+class HardTimeout(BaseException):
+    pass
+
+
+def _alarm(signum, frame):
+    raise HardTimeout()
+
+
 def run_obligation(obd: dict) -> dict:
+    import signal
+
     ob = Ob(**obd)
+    # last line of defence against code under test that loops without touching a symbolic value (CrossHair's own
+    # timeouts are only checked at symbolic decisions): the obligation becomes inconclusive
+    hard = int(ob.timeout * 4 + 300)
+    try:
+        signal.signal(signal.SIGALRM, _alarm)
+        signal.alarm(hard)
+    except Exception:
+        pass
+    try:
+        return _run_obligation(ob)
+    except HardTimeout:
+        return dict(id=ob.id, expect=ob.expect, group=ob.group, verdict="inconclusive", paths=0, queries=0, cpu_s=0.0,
+                    solver_s=0.0, compared=0, cex=None, sample=None, detail="hard timeout after %d s" % hard, wall_s=float(hard))
+    finally:
+        try:
+            signal.alarm(0)
+        except Exception:
+            pass
+
+
+def _run_obligation(ob) -> dict:
     res = dict(id=ob.id, expect=ob.expect, group=ob.group, verdict="inconclusive",
                paths=0, queries=0, cpu_s=0.0, solver_s=0.0, compared=0, cex=None,
                detail="", sample=None)
@@ -194,6 +225,8 @@ def run_obligation(obd: dict) -> dict:
                 res["cex"] = cex
                 res["detail"] = detail
                 res["compared"] = int(mod.STATS.get("compared", 0))
+    except HardTimeout:
+        raise
     except BaseException as e:  # noqa
         res["verdict"] = "inconclusive"
         res["detail"] = "worker error: " + "".join(
